@@ -23,7 +23,9 @@ ResetTo(e) ==
 
 \* the event kind the model expects from thread t next
 ExpectedEv(t) ==
-    CASE pc[t] = "idle" /\ Op(t) \in {"L", "T"} -> "cas"
+    CASE pc[t] = "idle" /\ Op(t) \in {"L", "T", "D"} -> "cas"
+      [] pc[t] = "dbg_read" -> "data"
+      [] pc[t] = "dbg_unlock" -> "swap"
       [] pc[t] = "idle" /\ Op(t) = "A" -> "data"
       [] pc[t] = "idle" /\ Op(t) = "U" -> "swap"
       [] pc[t] \in {"spin1", "spin2", "wfload"} -> "load"
